@@ -149,7 +149,8 @@ def cases(tier, seed):
     for c in C07.cases("quick", seed):
         if c["n"] == 1:
             out.append({"id": "graph:" + c["key"], "doc": c["doc"], "target": "D0", "settings": S_BUILDER, "family": "cycle", "shape": "graph", "ctx": "n1",
-                        "alias_only_cycle": C07._alias_only_cycle([C07._deser(nd) for nd in c["nodes"]])})
+                        "alias_only_cycle": C07._alias_only_cycle([C07._deser(nd) for nd in c["nodes"]]),
+                        "obj_enum": any(nd[0] == "ntobj" for nd in c["nodes"])})
     seen, res = set(), []
     for p in out:
         if p["id"] not in seen:
@@ -172,6 +173,8 @@ def execute(cases_, tier, seed):
                  "builder": bool((wc.settings or {}).get("struct_builder")), "id": wc.id.split("#")[0].split("~")[0]}
         if "alias_only_cycle" in p:
             feats["alias_only_cycle"] = p["alias_only_cycle"]
+        if p.get("obj_enum"):
+            feats["obj_enum"] = True
         ops = (wc.answer or {}).get("ops") or []
         st = wc.ingest.get("status") if wc.ingest else "abort"
         bad_op = next((o for o in ops if o.get("status") in ("err", "panic")), None)
